@@ -8,6 +8,9 @@ import (
 	"os"
 	"strings"
 
+	"go/constant"
+	"go/token"
+
 	"golang.org/x/tools/go/ssa"
 )
 
@@ -360,6 +363,7 @@ func runC01(c *Ctx) {
 					}
 				}
 			})
+			checkLeastUsedBound(c, ta)
 			if keygen == nil && len(append(callsToG(c.P, ta, fhb), callsToG(c.P, ta, fh)...)) > 0 {
 				// no list of windows is materialised: the windows of the shortcut are hashed in place
 				checkInPlaceKeys(c, ta, fh, fhb, Kprobe)
@@ -505,9 +509,21 @@ func runC01(c *Ctx) {
 		ta := methodOf(c.P, dtT, "TryAdd")
 		var probeFld string
 		var enum *ssa.Function
+		enumHashes := false
 		if ma != nil {
 			g := NewGate(c.P)
 			g.Inline = inlineOnly()
+			// the enumerator of the suffixes (or of their hashes) is judged on its own below: keep its call
+			// opaque here, whatever its name
+			eachInstr(ma, func(_ *ssa.BasicBlock, in ssa.Instruction) {
+				if ci, ok := in.(ssa.CallInstruction); ok {
+					if cal := ci.Common().StaticCallee(); cal != nil && c.P.IsLibFunc(cal) && cal.Signature.Recv() == nil && cal.Signature.Params().Len() == 1 && cal.Signature.Results().Len() == 1 && typeStr(cal.Signature.Params().At(0).Type()) == "string" {
+						if rt := typeStr(cal.Signature.Results().At(0).Type()); rt == "[]string" || rt == "[]uint32" {
+							g.NoInline[FuncName(cal)] = true
+						}
+					}
+				}
+			})
 			s := g.Eval(ma)
 			u := g.U
 			ps := g.ParamExprs(ma)
@@ -549,6 +565,48 @@ func runC01(c *Ctx) {
 					fmt.Sprintf("the probe does not hash every enumerated suffix (complete unconditional loop=%v, ranges over enumerator(request field)=%v)", okFull, okColl))
 			}
 			if !done {
+				// the enumerator may hand back the hashes of the suffixes instead of the suffixes: the probe
+				// then looks up every element of enumerator(request field) as it is, and the enumerator has
+				// to hash what it emits (checked with the enumerator below)
+				eachInstr(ma, func(b *ssa.BasicBlock, in ssa.Instruction) {
+					lk, ok := in.(*ssa.Lookup)
+					if !ok || done {
+						return
+					}
+					if _, isMap := lk.X.Type().Underlying().(*types.Map); !isMap {
+						return
+					}
+					ke := s.Env[lk.Index]
+					var l *Loop
+					for _, l2 := range loops {
+						if l2.Blocks[b] && (l == nil || len(l2.Blocks) > len(l.Blocks)) {
+							l = l2
+						}
+					}
+					if l == nil || ke == nil || ke.Op != "index" {
+						return
+					}
+					coll := ke.Args[0]
+					if coll.Op != "call" || len(coll.Args) < 1 || typeStr(coll.Typ) != "[]uint32" {
+						return
+					}
+					ro := rangedOver(l)
+					okFull := ro != nil && ro.Full && s.Env[ro.Coll] == coll && s.RCAt(in) == u.bdd.And(s.RC[l.Header], contCond(u, s, l)) && onlyExhaustionExit(l)
+					okColl := coll.Args[0].Op == "field" && coll.Args[0].Args[0] == ps[1]
+					if okColl {
+						probeFld = coll.Args[0].Aux
+						for _, cs := range callSites(ma, func(cal *ssa.Function, _ *ssa.CallCommon) bool { return cal != nil && calleeName(cal) == coll.Aux }) {
+							enum = cs.Common().StaticCallee()
+							enumHashes = true
+						}
+					}
+					done = true
+					c.Check(okFull && okColl, "C01.R4", "DomainsTable.MatchAll: hashes every element of the suffix enumeration of a request field", in.Pos(),
+						"complete, unconditional range over the hashes enumerator(Request."+probeFld+") returns, each looked up as it is",
+						fmt.Sprintf("the probe does not look up every enumerated hash (complete unconditional loop=%v, ranges over enumerator(request field)=%v)", okFull, okColl))
+				})
+			}
+			if !done {
 				c.Fail("C01.R4", "DomainsTable.MatchAll: probe", ma.Pos(), "UNDECIDED: no FastHash probe in a loop")
 			}
 		}
@@ -583,7 +641,11 @@ func runC01(c *Ctx) {
 		}
 		// enumerator: one suffix per label
 		if enum != nil {
-			checkSuffixEnumerator(c, "C01.R4", enum)
+			var hashFn *ssa.Function
+			if enumHashes {
+				hashFn = fh
+			}
+			checkSuffixEnumerator(c, "C01.R4", enum, hashFn)
 		} else {
 			c.Fail("C01.R4", "anchor:suffix enumerator", 0, "unresolved anchor: the probe does not range over the result of a repository function")
 		}
@@ -723,7 +785,7 @@ func filterObs(obs []*Ob, key string) []*Ob {
 
 // checkSuffixEnumerator: the function splits its argument at dots and emits
 // exactly one value per label, in a complete counted loop.
-func checkSuffixEnumerator(c *Ctx, rule string, enum *ssa.Function) {
+func checkSuffixEnumerator(c *Ctx, rule string, enum *ssa.Function, hashFn *ssa.Function) {
 	g := NewGate(c.P)
 	g.Inline = inlineOnly()
 	s := g.Eval(enum)
@@ -744,6 +806,14 @@ func checkSuffixEnumerator(c *Ctx, rule string, enum *ssa.Function) {
 		return
 	}
 	bad := ""
+	if hashFn != nil {
+		// an enumerator of hashes: what it emits is the insert-side hash of the suffix
+		if el := em.Elems[0]; !(el.Op == "call" && el.Aux == calleeName(hashFn) && len(el.Args) >= 1) {
+			c.Check(false, rule, shortFn(enum)+": the emitted key is the hash of the suffix", em.Call.Pos(), "", "the enumerator emits "+clip(u.Show(el), 80)+", not "+shortFn(hashFn)+"(suffix): the probe keys differ from the keys the rules are filed under")
+		} else {
+			c.Check(true, rule, shortFn(enum)+": the emitted key is the hash of the suffix", em.Call.Pos(), shortFn(hashFn)+"(suffix), the hash TryAdd files the rule under", "")
+		}
+	}
 	if ro := rangedOver(l); ro != nil && ro.Full {
 		// ascending complete range over the labels
 		coll := s.Env[ro.Coll]
@@ -1002,4 +1072,119 @@ func checkInPlaceKeys(c *Ctx, ta, fh, fhb *ssa.Function, Kprobe int64) {
 		okKey = "UNDECIDED: TryAdd updates no lookup map"
 	}
 	c.Check(okKey == "", "C01.R3", "ShortcutsTable.TryAdd: stored key = FastHash(one generated window)", ta.Pos(), "provenance of the map key", okKey)
+}
+
+// checkLeastUsedBound: the key of a rule starts as the zero hash and is replaced by the hash of a window
+// when that window's usage count is below the running minimum.  The first window is chosen only if its
+// count is below the *initial* minimum, so that constant has to be out of reach of the counters: at least
+// 2^31-1 (no table holds that many rules) with a strict comparison, or the largest value of the counter
+// type with a non-strict one.  With a smaller bound (a saturating 8-bit counter, say) a rule all of whose
+// windows have reached it keeps the zero hash: it is filed in a bucket no request ever probes.
+func checkLeastUsedBound(c *Ctx, ta *ssa.Function) {
+	fns := []*ssa.Function{ta}
+	seen := map[*ssa.Function]bool{ta: true}
+	for d := 0; d < 2; d++ {
+		for _, fn := range append([]*ssa.Function(nil), fns...) {
+			for _, b := range fn.Blocks {
+				for _, in := range b.Instrs {
+					if ci, ok := in.(ssa.CallInstruction); ok {
+						if cal := ci.Common().StaticCallee(); cal != nil && c.P.IsLibFunc(cal) && cal.Pkg == ta.Pkg && len(cal.Blocks) > 0 && !seen[cal] {
+							seen[cal] = true
+							fns = append(fns, cal)
+						}
+					}
+				}
+			}
+		}
+	}
+	fromMap := func(v ssa.Value) bool {
+		var walk func(v ssa.Value, d int) bool
+		walk = func(v ssa.Value, d int) bool {
+			if d > 4 {
+				return false
+			}
+			switch x := v.(type) {
+			case *ssa.Lookup:
+				_, ok := x.X.Type().Underlying().(*types.Map)
+				return ok
+			case *ssa.Extract:
+				return walk(x.Tuple, d+1)
+			case *ssa.Phi:
+				for _, e := range x.Edges {
+					if walk(e, d+1) {
+						return true
+					}
+				}
+			case *ssa.Convert:
+				return walk(x.X, d+1)
+			case *ssa.ChangeType:
+				return walk(x.X, d+1)
+			}
+			return false
+		}
+		return walk(v, 0)
+	}
+	for _, fn := range fns {
+		loops := loopsOf(fn)
+		for _, b := range fn.Blocks {
+			for _, in := range b.Instrs {
+				bo, ok := in.(*ssa.BinOp)
+				if !ok {
+					continue
+				}
+				var cnt, min ssa.Value
+				strict := false
+				switch bo.Op {
+				case token.LSS:
+					cnt, min, strict = bo.X, bo.Y, true
+				case token.LEQ:
+					cnt, min = bo.X, bo.Y
+				case token.GTR:
+					cnt, min, strict = bo.Y, bo.X, true
+				case token.GEQ:
+					cnt, min = bo.Y, bo.X
+				default:
+					continue
+				}
+				ph, ok := min.(*ssa.Phi)
+				if !ok || !fromMap(cnt) {
+					continue
+				}
+				l := innermostLoop(loops, b)
+				if l == nil || l.Header != ph.Block() {
+					continue
+				}
+				// the initial value: the constant that enters the loop from outside
+				var init *ssa.Const
+				for i, e := range ph.Edges {
+					if !l.Blocks[ph.Block().Preds[i]] {
+						if k, ok := e.(*ssa.Const); ok && k.Value != nil && k.Value.Kind() == constant.Int {
+							init = k
+						}
+					}
+				}
+				if init == nil {
+					continue
+				}
+				bt, ok := cnt.Type().Underlying().(*types.Basic)
+				if !ok || bt.Info()&types.IsInteger == 0 {
+					continue
+				}
+				bits := map[types.BasicKind]uint{types.Int8: 7, types.Uint8: 8, types.Int16: 15, types.Uint16: 16, types.Int32: 31, types.Uint32: 32, types.Int: 63, types.Int64: 63, types.Uint: 64, types.Uint64: 64, types.Uintptr: 64}[bt.Kind()]
+				if bits == 0 {
+					continue
+				}
+				typeMax := constant.BinaryOp(constant.Shift(constant.MakeInt64(1), token.SHL, bits), token.SUB, constant.MakeInt64(1))
+				big := constant.MakeInt64(1<<31 - 1)
+				bad := ""
+				switch {
+				case constant.Compare(init.Value, token.GEQ, big):
+				case !strict && constant.Compare(init.Value, token.GEQ, typeMax):
+				default:
+					bad = fmt.Sprintf("the running minimum of the least-used selection starts at %s and a window is chosen only when its count is %s: once the counts of all windows of a rule have reached that value (%s counters) no window is chosen, the rule keeps the zero hash and is filed in a bucket that no request probes", init.Value.ExactString(), map[bool]string{true: "strictly below it", false: "at most it"}[strict], bt.Name())
+				}
+				c.Check(bad == "", "C01.R3", "least-used selection: the initial bound is out of reach of the usage counters", bo.Pos(), "initial minimum >= 2^31-1 (strict comparison) or the largest value of the counter type (non-strict)", bad)
+			}
+		}
+	}
 }
